@@ -395,7 +395,7 @@ def race_run(seed=0, seconds=8.0, tier="quick", data=None, keep=False, curve=Non
             data = accessgen.extract()
     binary = build_race_binary()
     nfans = 3 if tier == "quick" else 4
-    file_fans = 1
+    file_fans = 2   # two file fans with an RPM input: whatever file / cmd fans share behind their methods is written by two monitors (seed C20i)
     curve = curve or ["pid", "linear", "function"][seed % 3]
     base = tempfile.mkdtemp(prefix="c20race-")
     res = {"seed": seed, "seconds": seconds, "curve": curve, "nfans": nfans, "file_fans": file_fans, "warm": warm, "quiet": quiet}
@@ -417,7 +417,7 @@ def race_run(seed=0, seconds=8.0, tier="quick", data=None, keep=False, curve=Non
         d = daemon.Daemon(binary, base, cfg, jpath,
                           extra_env={"GORACE": "halt_on_error=0 history_size=2", "GOMAXPROCS": "4"})
         api = f"http://127.0.0.1:{api_port}"
-        urls = [api + "/fan/", api + "/fan/f1/", api + "/fan/f2/", api + "/fan/ff1/", api + "/curve/", api + "/curve/c1/",
+        urls = [api + "/fan/", api + "/fan/f1/", api + "/fan/f2/", api + "/fan/ff1/", api + "/fan/ff2/", api + "/curve/", api + "/curve/c1/",
                 api + "/sensor/", api + "/sensor/s1/", f"http://127.0.0.1:{stats_port}/metrics",
                 f"http://127.0.0.1:{stats_port}/metrics"]
         urls.append(api + f"/fan/f{nfans}/")
